@@ -59,7 +59,23 @@ def gen_case(rng, tier, index):
         g.one_per_block = True
     g.edits()
     g.case["seq_passmanager"] = rng.random() < 0.5
+    if len(g.code_labels) >= 2 and rng.random() < 0.25:
+        # the same context also redirects the uses of one label to another
+        # (retarget_symbol_uses runs behind the modifications); one at a
+        # time this is a last context of its own
+        used = sorted({it["t"] for b in g.all_blocks for it in b["items"]
+                       if it.get("t") in g.code_labels})
+        a = rng.choice(used or g.code_labels)
+        b = rng.choice([x for x in g.code_labels if x != a])
+        g.case["retargets"] = [[a, b]]
     return g.case
+
+
+def register_retargets(case, m, ctx):
+    for a, b in case.get("retargets", []):
+        sa = next(s for s in m.symbols if s.name == a)
+        sb = next(s for s in m.symbols if s.name == b)
+        ctx.retarget_symbol_uses(sa, sb)
 
 
 def one_mod_per_block(case):
@@ -223,6 +239,18 @@ def run_sequential(case, seed=0):
                 exc = x
                 break
             applied.append((eid, e))
+        if exc is None and not unmappable and case.get("retargets"):
+            have_fn = "functionEntries" in m.aux_data and \
+                "functionBlocks" in m.aux_data
+            ctx = RewritingContext(
+                m, gtirb_functions.Function.build_functions(m)
+                if have_fn else [])
+            register_retargets(case, m, ctx)
+            try:
+                ctx.apply()
+                relayout(case, bu)
+            except Exception as x:  # noqa
+                exc = x
     finally:
         rewrite._current = None
     bu.rec = rec
@@ -420,6 +448,9 @@ def run_case(case):
     contracts.drain()
 
     def before(r):
+        register_retargets(case, r.bu.module, r.ctx)
+        if case.get("retargets"):
+            ctr["contexts_that_also_retarget"] = 1
         mon.install_shadow(r.bu.module)
 
     rw._verif.register(mon)
